@@ -36,7 +36,7 @@ CHECKS = {
             TRUST_CRDT + " Hang = delivery goroutine still inside ReceiveRemoteModelOperations on three stack samples.",
             "DESIGN.md §4 C09"),
     "C10": ("exploration", "runtime monitoring: original vs restored-from-snapshot instance under a shared continuation; canonical snapshot comparison",
-            "At random points of multi-replica histories the state is exported and imported into a fresh instance; both then get the same continuation (local calls, transactions, remote deliveries addressing old tombstones and containers) and are compared after every step including emitted operation ids and bodies; re-exports are compared canonically.",
+            "At random points of multi-replica histories the state is exported and imported into a fresh instance; both then get the same continuation (local calls, transactions, remote deliveries addressing old tombstones and containers) and are compared after every step including emitted operation ids and bodies; the pair is exported again up to four times during the continuation and at the end and the exports are compared canonically (an export that lags behind the state shows there).",
             TRUST_CRDT + " Import = SetMetaAndSnapshot + ResetTransaction as the SDK's init does.",
             "DESIGN.md §4 C10"),
     "C14": ("exploration", "runtime monitoring: codec-chain round trip (proto, BSON document, decode, re-encode, echo service) with same-effect oracle on replicas",
@@ -66,7 +66,7 @@ CHECKS.update({
             "Complete enumeration of at most two message faults over the five exchanges of 8 exchange patterns x 3 operation masks (x 2 types in the thorough tier) plus long random faulty histories on all four types (also lost / duplicated entry requests with both responses applied); after faults stop and everyone syncs to quiescence every issued operation is stored exactly once, every replica equals the fault-free replay of the stored log, no handler saw an operation twice or an own one.",
             TRUST_SVC + " Exhaustive only for the stated plan space.", "DESIGN.md §4 C07"),
     "C08": ("fault_enumeration", "runtime monitoring under enumerated storage faults: fail / sever / sever-after at every database command of every request (profiled from a fault-free run), restart of the service, retry; SIGKILL of a real server child process at database commands; recovery oracles",
-            "For 7 scenario variants (create + subscribers; all subscribe-or-create plus a refused duplicate creator) every database command issued while serving each request (incl. those of the background snapshot goroutine) is in turn failed, severed before, and severed after execution; a new service incarnation starts, all clients retry; the faulted call must have been answered with an error (no panic, no hang), acknowledged operations are in the log, store invariants hold, retries reach quiescence, exactly one datatype document per key exists, and every replica and the server's rebuild agree with the stored log. Process cases: the repository's server binary runs as a child process behind a grpc front, SDK clients call Client.Sync() over real grpc, the process is SIGKILLed at database command k (before / after executing it), a new process starts on the same store and everybody retries; a server process that ends by itself is a violation. Collection cases: the same three faults at every database command of CreateCollection / ResetCollection of a second collection: an acknowledged creation / reset has really happened (collection stored; every datatype, operation, snapshot, client document and the user collection gone), a refused one succeeds when retried, the bystander collection never changes, new clients re-create the key and converge.",
+            "For 7 scenario variants (create + subscribers; all subscribe-or-create plus a refused duplicate creator) every database command issued while serving each request (incl. those of the background snapshot goroutine) is in turn failed, severed before, and severed after execution; a new service incarnation starts, all clients retry; the faulted call must have been answered with an error (no panic, no hang), acknowledged operations are in the log, store invariants hold, retries reach quiescence, exactly one datatype document per key exists, and every replica and the server's rebuild agree with the stored log. Process cases: the repository's server binary runs as a child process behind a grpc front, SDK clients call Client.Sync() over real grpc, the process is SIGKILLed at database command k (before / after executing it), a new process starts on the same store and everybody retries; a server process that ends by itself is a violation. Collection cases: the same three faults at every database command of CreateCollection / ResetCollection of a second collection: an acknowledged creation / reset has really happened (collection stored; every datatype, operation, snapshot, client document and the user collection gone), a refused one succeeds when retried, the bystander collection never changes, new clients re-create the key and converge. After every recovery one more push is made and the user-visible document must then record the end of the log and equal its replay.",
             TRUST_SVC + " In the enumerated in-process cases server death is approximated (connections severed, service object abandoned); the process cases kill a real process. Injected command failures use a code the driver does not retry.", "DESIGN.md §4 C08"),
     "C11": ("exploration", "runtime monitoring: offline checker over the stored snapshots, user-collection writes (command log) and rebuilds vs replay of the stored log, with background updates held at database commands to overlap later pushes",
             "Every stored snapshot (duid, v) restored into a fresh datatype equals replay(1..v); every user-collection write leaves a stored document (post-image recorded by the stand-in, independent of the form of the update statement) with _orda_ver_ = v and the JSON view of replay(1..v); written versions per key never decrease (also when the document has a user key named like the version field); GetLatestDatatype equals the full replay for every position of the latest snapshot; schedules hold a background update at each of its database commands while later pushes commit, run updates back to back, or start them out of order.",
@@ -75,10 +75,10 @@ CHECKS.update({
             "2-16 goroutines call the real service at the same instant on shared and distinct keys (own context each, cancelled on return) with injected yields at hook points and database commands; at most one handler per key inside the critical section; the call/return history of every key is linearizable against the push-pull specification (porcupine); requests on other keys return while one key's handler is held (independence probe: one existing and 40 fresh other keys); every request returns, also ones abandoned by their client (context cancelled before / during / exactly at lock acquisition), and the key stays usable afterwards; no race report attributed to orda code.",
             TRUST_SVC + " Schedules are those the Go scheduler produced under the injected delays; the evidence counts the distinct critical-section entry orders seen. porcupine timeout = inconclusive.", "DESIGN.md §4 C12"),
     "C13": ("exploration", "runtime monitoring: complete entry-mode matrix with outcome oracle (error handler, state transitions, store diff, single datatype document under races, first state vs replay)",
-            "The complete matrix entry mode x existing datatype x other client (absent / first / racing) x point of history x type (432 cells) is executed with seeded repetitions; illegal entries must reach the error handler with an empty store diff and no transition to SUBSCRIBED, legal ones report SUBSCRIBED exactly once with a first state equal to the replay up to the response checkpoint; racing subscribe-or-create leaves exactly one datatype document; a first entry attempt aborted by the server (failing database command) must reach the error handler without SUBSCRIBED and the retry is judged like a first entry; an entry response delivered twice and a second open of a held key through the public API change nothing; a client id already recorded as subscriber that enters the key again as ANOTHER type (any mode, new DUID) is refused with unchanged store.",
+            "The complete matrix entry mode x existing datatype x other client (absent / first / racing) x point of history x type (432 cells) is executed with seeded repetitions; illegal entries must reach the error handler with an empty store diff and no transition to SUBSCRIBED, legal ones report SUBSCRIBED exactly once with a first state equal to the replay up to the response checkpoint; racing subscribe-or-create leaves exactly one datatype document; a first entry attempt aborted by the server (failing database command) must reach the error handler without SUBSCRIBED and the retry is judged like a first entry; an entry response delivered twice and a second open of a held key through the public API change nothing; a client id already recorded as subscriber that enters the key again as ANOTHER type (any mode, new DUID) is refused with unchanged store; every report of the state-change handler is truthful (starts at the state before, ends at the state the datatype is in).",
             TRUST_SVC + " The matrix is complete; histories around the cells are seeded samples.", "DESIGN.md §4 C13"),
     "C16": ("exploration", "runtime monitoring: request mutation (hostile requests) with answered/hang/panic watchdog, refused => empty store diff oracle, canary client; client half for error packs",
-            "Valid requests captured from correct clients in every state are mutated in 1-3 fields (ids, keys, types, every option-bit combination, checkpoints, operation lists, client / collection fields) plus ClientMessage / PatchMessage / CollectionMessage / EncodingMessage variants; every call must be answered (a call that returns neither response nor error is not an answer), never crash the server, and a refusal must leave the store unchanged; a canary client must still be served afterwards; a panic injected inside a handler goroutine must be answered, survived and must not leave the key locked; after an ACCEPTED hostile request the structural log invariants of C06 must still hold; a handler fault in one pack of a two-pack message must still be answered with both packs; clients must survive every error pack and push again after a refused push, also through the SDK's own Client.Sync() (lost response, RPC refusal, error pack: the next Sync() must return and succeed).",
+            "Valid requests captured from correct clients in every state are mutated in 1-3 fields (ids, keys, types, every option-bit combination, checkpoints, operation lists, client / collection fields) plus ClientMessage / PatchMessage / CollectionMessage / EncodingMessage variants; every call must be answered (a call that returns neither response nor error is not an answer), never crash the server, and a refusal must leave the store unchanged; a canary client must still be served afterwards, and a well-formed REST patch of the key and a fresh subscriber must be answered whatever the accepted hostile requests have left stored (incl. a correctly numbered pack whose transaction header over-counts); a panic injected inside a handler goroutine must be answered, survived and must not leave the key locked; after an ACCEPTED hostile request the structural log invariants of C06 must still hold; a handler fault in one pack of a two-pack message must still be answered with both packs; clients must survive every error pack and push again after a refused push, also through the SDK's own Client.Sync() (lost response, RPC refusal, error pack: the next Sync() must return and succeed); one case in 150: a REST request that arrives while the server process shuts down gracefully (SIGTERM with a request still in progress) is answered while the shutdown is pending.",
             TRUST_SVC, "DESIGN.md §4 C16"),
     "C17": ("exploration", "runtime monitoring: store diff partitioned by owner after every request over several collections in a fresh store; foreign-request and reset oracles",
             "Seeded histories over 2-3 collections with overlapping keys: every request may touch only documents owned by its own collection and datatype; foreign requests must change and read nothing of the other collection; notifications caused by a sync are published on its own collection's topic with that collection's datatype id; ResetCollection removes exactly the owner's documents and leaves the rest byte-identical.",
